@@ -235,6 +235,8 @@ class Prop:
             '(kind, family, frame count, entry count, digest of the bytes written)')
     exhaustive = {'quick': False, 'thorough': False}
     trusted_base = [
+        'hidden encoder state: the model\'s encoder is a function of (session codec, message); PeerCodec::encode_to takes &mut self.  The implementation is compared with itself '
+        'on every case (a codec that lived through the whole run vs a fresh one, for the current message and for the previous one built again after a drop): sampling, not proof',
         'Model/WireEnc.v covers PeerCodec::negotiate / encode_to / do_encode / put_entries / mp_reach_encode / mp_unreach_encode, Attribute::encode, '
         'the RFC 6793 down-conversion helpers, Capability::encode, Notification::from_notification, and the NLRI encoders of all 19 families of the '
         'code: Ipv4Net / Ipv6Net, VPN, labeled (incl. encode_withdraw), MPLS labels, Flowspec x4 (components, operator widths, length prefix), RTC, '
@@ -308,7 +310,7 @@ class Prop:
     def canon1(o):
         if o == [-1] or o == [-9]:
             return o
-        if len(o) == 5:     # implementation: [enc, bytes, decoded, leftover, fixpoint flags]
+        if len(o) in (5, 6):     # implementation: [enc, bytes, decoded, leftover, fixpoint flags, (encoder memory: oracle only)]
             bs = o[1]
             h = hash_bytes(bs)
             return [o[0], [len(bs), h[0], h[1], bs if len(bs) <= 256 else []]]
